@@ -16,7 +16,7 @@ THEOREMS_C17R = ["Slock.C17R.reachable_refcounts", "Slock.C17R.keycount_exact", 
 # simulation stage 2 -> stage 1 through `abs` (Slock/Properties/EngineSim.lean); partial: see the header of that file
 THEOREMS_SIM = ["Slock.SimP.abs_is_key_local", "Slock.SimP.lock_branch_refines", "Slock.SimP.unlock_branch_refines",
                 "Slock.SimP.sim_lock_quiet", "Slock.SimP.sim_unlock_quiet", "Slock.SimP.admission_contract_transfers",
-                "Slock.SimP.wake_pass_refines", "Slock.SimP.sim_lock_grant", "Slock.SimP.sim_unlock_hold", "Slock.SimP.sim_lock_hold"]
+                "Slock.SimP.wake_pass_refines", "Slock.SimP.sim_lock_grant", "Slock.SimP.sim_unlock_hold", "Slock.SimP.sim_lock_hold", "Slock.SimP.reachable_ki", "Slock.SimP.SimInv.of_reachable", "Slock.SimP.sim_unlock_cancel"]
 THEOREMS_C10 = ["Slock.C10.gate_lock", "Slock.C10.gate_unlock", "Slock.C10.no_journal_off_leader", "Slock.C10.follower_expiry_deferred",
                 "Slock.C10.follower_expiry_ended_only_after", "Slock.C10.follower_defers_again"]
 
